@@ -95,10 +95,14 @@ func VerifC17_ImportMirrorsSnapshot() {
 		}
 	}
 	// local data and another peer's data with colliding names
+	// (same node name, same service id, same check ids as the imported ones)
 	must(store.EnsureRegistration(1, &structs.RegisterRequest{Node: "n1", Address: "192.168.0.1",
-		Service: &structs.NodeService{ID: "api", Service: "api", Port: 9090}}))
+		Service: &structs.NodeService{ID: "api", Service: "api", Port: 9090},
+		Checks: structs.HealthChecks{{Node: "n1", CheckID: "node:check", Status: "passing"},
+			{Node: "n1", CheckID: "api:check", ServiceID: "api", Status: "passing"}}}))
 	must(store.EnsureRegistration(2, &structs.RegisterRequest{Node: "n1", Address: "172.16.0.1", PeerName: "p2",
-		Service: &structs.NodeService{ID: "api", Service: "api", Port: 7070, PeerName: "p2"}}))
+		Service: &structs.NodeService{ID: "api", Service: "api", Port: 7070, PeerName: "p2"},
+		Checks: structs.HealthChecks{{Node: "n1", CheckID: "node:check", Status: "passing", PeerName: "p2"}}}))
 	// another imported service of the same peer may share node n1
 	otherOnN1 := verifrt.Bool("other-service-on-n1")
 	if otherOnN1 {
@@ -157,6 +161,8 @@ func VerifC17_ImportMirrorsSnapshot() {
 		keep := inSnap || (node == "n1" && otherOnN1)
 		if !keep {
 			verifrt.Assert("C17.unused-imported-node-removed", nd == nil)
+			_, left, _ := store.NodeChecks(nil, node, nil, "p1")
+			verifrt.Assert("C17.removed-imported-node-leaves-no-check-behind", len(left) == 0)
 		} else if inSnap {
 			verifrt.Assert("C17.used-imported-node-kept", nd != nil)
 		}
@@ -164,9 +170,9 @@ func VerifC17_ImportMirrorsSnapshot() {
 	// non-interference
 	verifrt.Assert("C17.only-this-peers-data-is-written", !b.foreign)
 	_, local, _ := store.CheckServiceNodes(nil, "api", nil, "")
-	verifrt.Assert("C17.local-data-untouched", len(local) == 1 && local[0].Service.Port == 9090 && local[0].Node.Address == "192.168.0.1")
+	verifrt.Assert("C17.local-data-untouched", len(local) == 1 && local[0].Service.Port == 9090 && local[0].Node.Address == "192.168.0.1" && len(local[0].Checks) == 2)
 	_, other, _ := store.CheckServiceNodes(nil, "api", nil, "p2")
-	verifrt.Assert("C17.other-peer-data-untouched", len(other) == 1 && other[0].Service.Port == 7070)
+	verifrt.Assert("C17.other-peer-data-untouched", len(other) == 1 && other[0].Service.Port == 7070 && len(other[0].Checks) == 1)
 	if otherOnN1 {
 		_, db, _ := store.CheckServiceNodes(nil, "db", nil, "p1")
 		verifrt.Assert("C17.other-imported-service-untouched", len(db) == 1 && db[0].Node.Node == "n1")
